@@ -125,7 +125,11 @@ func RunFamily(rep *ev.Reporter, gen func(emit func(Case)), maxRunsPerWorld int,
 		rep.Coverage["second_use_runs"] = fs.Reused
 	}
 	rep.Coverage["max_cycles_in_a_run"] = fs.MaxDepth
-	rep.Coverage["order_controlled"] = hx.OrderControlled
+	rep.Coverage["order_controlled"] = hx.OrderLive()
+	if !hx.OrderLive() {
+		rep.Exhaustive = false
+		rep.Coverage["order_note"] = "the rule-order hook is not live on this tree: rule orders were NOT enumerated (each run took whatever order the Go runtime chose)"
+	}
 	rep.Coverage["hook_calls"] = hx.HookCalls()
 	rep.Coverage["harness_nondeterminism"] = fs.Nondet
 	if fs.Capped > 0 || bud.Hit() {
